@@ -101,7 +101,7 @@ func init() {
 				count = 1 + r.intn(n+1)
 			}
 			docs := genSameSchemaDocs(r, o, count)
-			c := sameSchemaCase(kind, wrappers[r.intn(len(wrappers))], n, docs)
+			c := sameSchemaCase(kind, pickWrapper(r, kind), n, docs)
 			if r.chance(1, 5) {
 				meta := []elem{{"host", &val{T: 0x02, B: []byte("h")}}, {"n", &val{T: 0x10, I: int64(r.intn(100))}}}
 				c.ops = append([]hop{{op: 'M', doc: meta}}, c.ops...)
